@@ -501,7 +501,7 @@ func Defs() map[string]*world.Def {
 			Rule: rule, Real: real, Stub: stub, Level: "exploration", QuickRuns: quick, ThoroughRuns: thorough, Assumptions: assume}
 	}
 	return map[string]*world.Def{
-		"C20": mk("C20", genDispatch, "script = the real Client connects through the simulated transport to a scripted server answering CONNACK code 0-5 / SessionPresent 0/1 / malformed CONNACK / silence (connect timeout in virtual time) / close before or inside the CONNACK; then 1-2 application tasks issue Subscribe requests (distinct callback per request; quick tier: one literal filter per request, a quarter of the runs and the thorough tier: 1-4 wildcard and overlapping filters, filters shared between requests, filters the server denies with 0x80) and Unsubscribe (one subscribed filter, or several with a never-subscribed filter at any position), while the server delivers PUBLISH QoS 0-2 with DUP repeats (a sixth of the first copies already carry DUP), explicit PUBREL, matching and non-matching topics around those points; a fifth of the scripts end with a burst of QoS 0/1 messages after which the server at once shuts down its sending direction (half-close). Oracle: Connect result table (nil iff code 0, error equals the refusal code, no goroutine and no open connection after a failed Connect); per completed Subscribe the callback count per message between certain and possible hand-overs, never for non-matching topics. Non-trivial = at least one request or a non-accepting CONNACK mode.", 100000, 10000000),
+		"C20": mk("C20", genDispatch, "script = the real Client connects through the simulated transport to a scripted server answering CONNACK code 0-5 / SessionPresent 0/1 / malformed CONNACK / silence (connect timeout in virtual time) / close before or inside the CONNACK; then 1-2 application tasks issue Subscribe requests (distinct callback per request; quick tier: one literal filter per request, a quarter of the runs and the thorough tier: 1-4 wildcard and overlapping filters, filters shared between requests, filters the server denies with 0x80) and Unsubscribe (one subscribed filter, or several with a never-subscribed filter at any position), while the server delivers PUBLISH QoS 0-2 with DUP repeats (a sixth of the first copies already carry DUP), explicit PUBREL, matching and non-matching topics around those points; a fifth of the scripts end with a burst of QoS 0/1 messages after which the server at once shuts down its sending direction (half-close). Oracle: Connect result table (nil iff code 0, error equals the refusal code, no goroutine and no open connection after a failed Connect); per completed Subscribe the callback count per message between certain and possible hand-overs, never for non-matching topics. Non-trivial = at least one request or a non-accepting CONNACK mode.", 50000, 10000000),
 		"C12": mk("C12", genCompletions, "client role: 1-3 application tasks call Publish (QoS 0-2), Subscribe, Unsubscribe, Ping on one Client; the scripted server acknowledges immediately or in any order at scheduler-chosen moments (also before the sending call has returned), withholding some acknowledgements until the end; in a third of the runs every n-th final acknowledgement is followed by a byte-identical repeat of an earlier one; a quarter of the runs are bursts (1-6 requests of one QoS complete, then 17-41 more pile up behind a withheld acknowledgement, so that the acknowledgement queue grows while wrapped and its slots are reused); packet-id counter starting near 65535 in a third of the runs. Oracle: exactly one completion per request, not before the last byte of its terminal acknowledgement, QoS 0 inside the call, completion due at the end when the acknowledgement and all earlier ones of the kind arrived, PUBREL per PUBREC, distinct non-zero identifiers in flight, strict parse of every byte the client writes.", 12000, 350000),
 		"C02": mk("C02", genReceiver, "client role: the Client subscribes to # and the scripted server plays the sender script of the broker role (PUBLISH QoS 1 with DUP repeats, QoS 2 with DUP repeats before the PUBREL, PUBREL in order, repeated and unknown PUBREL, more than two ring sizes of unrelated traffic). Oracle: the client's acknowledgement stream equals what the server's packets call for, in order; OnPublishFunc once per QoS 1 PUBLISH and once per QoS 2 exchange, not before the PUBREL, payload byte-identical.", 12000, 500000),
 	}
